@@ -17,6 +17,7 @@ mod payload;
 mod prng;
 mod rec;
 mod rng;
+mod rsa_faults;
 
 use rec::Recorder;
 
@@ -43,6 +44,17 @@ fn main() {
             println!("lines={}", rec.finish());
         }
         "gen-fixtures" => keys::gen_fixtures(),
+        "rsa-faults" => {
+            let mut rec = Recorder::create(&out);
+            std::panic::set_hook(Box::new(|_| {}));
+            match rsa_faults::run(&mut rec, thorough, seed) {
+                Ok(v) => println!("{}", serde_json::json!({"lines": rec.finish(), "stats": v})),
+                Err(e) => {
+                    eprintln!("{e}");
+                    std::process::exit(3);
+                }
+            }
+        }
         "feat-material" => {
             let v = obs_cross::feature_material(seed);
             std::fs::write(&out, serde_json::to_vec(&v).unwrap()).unwrap();
